@@ -653,6 +653,38 @@ def c01_8(ck, prog):
     C16.utf8_scanner(r, prog)
 
 
+def c01_10(ck, prog, rid='C01.10'):
+    r = ck.rule(rid, 'the wire-format limits are inclusive everywhere: wherever production code compares a value with '
+                'DBUS_MAXIMUM_ARRAY_LENGTH, _MESSAGE_LENGTH, _NAME_LENGTH, _SIGNATURE_LENGTH or _TYPE_RECURSION_DEPTH, '
+                'the value equal to the limit is on the accepted side (`x > LIMIT` rejects, `x <= LIMIT` accepts), in '
+                'validators, builders, assertions and the byte-swapper alike', 'TAB',
+                breaks='a value exactly at a limit is accepted by the validator and then refused -- or asserted '
+                'impossible -- by a later stage (abort while iterating an accepted message), or a builder produces '
+                'what the parser rejects', floor=8)
+    from engine import generic
+    LIMITS = ('DBUS_MAXIMUM_ARRAY_LENGTH', 'DBUS_MAXIMUM_MESSAGE_LENGTH', 'DBUS_MAXIMUM_NAME_LENGTH',
+              'DBUS_MAXIMUM_SIGNATURE_LENGTH', 'DBUS_MAXIMUM_TYPE_RECURSION_DEPTH')
+    n = 0
+    for f in lib.prod_funcs(prog):
+        if not f.file.startswith('dbus/'):
+            continue
+        cp = generic.comparison_profile(f)
+        for name in LIMITS:
+            for cl, lines in cp.get(name, {}).items():
+                n += 1
+                key = '%s:%s' % (f.name, name)
+                if cl == 'below-incl':
+                    r.ok(key)
+                elif cl == 'eq':
+                    r.ok(key, {'note': 'equality test'})
+                else:
+                    r.violation(key, f.name, f.file, lines[0],
+                                '%s treats the value equal to %s as out of range (`x < LIMIT` / `x >= LIMIT`), while the '
+                                'validators accept it' % (f.name, name))
+    if n < 8:
+        raise AnalysisBroken('comparisons with the wire-format limits not found (%d)' % n)
+
+
 def run(ck):
     ck.explanation = (
         'Static rules over dbus-message.c, dbus-marshal-header.c, dbus-marshal-validate.c, dbus-marshal-basic.c, '
@@ -678,3 +710,4 @@ def run(ck):
         c01_8(ck, prog)
         from rules.C16 import c16_5
         c16_5(ck, prog, 'C01.9')
+        c01_10(ck, prog)
